@@ -610,7 +610,7 @@ impl Prop for C14 {
             }
             // display_json into a file that already holds something longer
             if rng.chance(1, 6) {
-                let dir = std::env::temp_dir().join(format!("tsgmon_c14_{}", std::process::id()));
+                let dir = std::env::current_dir().unwrap_or_else(|_| std::env::temp_dir()).join(format!("tsgmon_c14_{}", std::process::id()));
                 let _ = std::fs::create_dir_all(&dir);
                 let path = dir.join("graph.json");
                 let _ = std::fs::write(&path, "x".repeat(200_000));
